@@ -496,6 +496,23 @@ func (ov *OV) literal(t *rapid.T) string {
 			}
 		}
 	}
+	// an empty list sets nothing: legal for any repeated field the value does not set
+	single := len(ov.Fields) == 1 && (ov.Fields[0].Kind == "any" || ov.Fields[0].Kind == "map-im") // rendered for a path statement
+	if !single && !ov.Group && Pct(t, 12, "emptylist") {
+		set := map[string]bool{}
+		for _, f := range ov.Fields {
+			set[f.Name] = true
+		}
+		var free []string
+		for _, n := range []string{"ri", "rs", "rc", "kids"} {
+			if !set[n] {
+				free = append(free, n)
+			}
+		}
+		if len(free) > 0 {
+			add(Pick(t, free, "emptylistfield"), ":", "[", "]")
+		}
+	}
 	return strings.Join(parts, "\x00")
 }
 
